@@ -1334,7 +1334,42 @@ func mpSynthFamily() []string {
 		w.Note = note
 		return w.op()
 	}
-	for _, f := range []string{"x", "_x", "X", "a_b"} {
+	// several `optional` fields in one message whose synthetic names interact (a name generated
+	// for an earlier field is taken for a later one), in both declaration orders, alone and next to
+	// a plain field that occupies a candidate
+	multi := func(note string, opts []string, plain string) string {
+		file := &mpFile{Path: "t.proto", Syntax: "3", Pkg: "p", Top: []mpRec{mpRec1("c", "0")}}
+		m := &mpBody{Name: "M"}
+		file.Msgs = append(file.Msgs, m)
+		for i, o := range opts {
+			m.Elems = append(m.Elems, mpFldT("o", "int32", o, 1+i))
+		}
+		if plain != "" {
+			m.Elems = append(m.Elems, mpFldT("-", "int32", plain, 1+len(opts)))
+		}
+		return (&mpWS{Note: note, Files: []*mpFile{file}}).op()
+	}
+	pool := []string{"x", "_x", "__x", "___x", "X_x", "XX_x", "x_", "_x_"}
+	for _, a := range pool {
+		for _, b := range pool {
+			if a == b {
+				continue
+			}
+			for _, plain := range []string{"", "X_x", "_x", "X__x"} {
+				if plain == a || plain == b {
+					continue
+				}
+				ops = append(ops, multi("synth-multi:"+a+":"+b+":"+plain, []string{a, b}, plain))
+			}
+		}
+	}
+	three := []string{"__two", "two", "_two"}
+	for _, pm := range [][3]int{{0, 1, 2}, {0, 2, 1}, {1, 0, 2}, {1, 2, 0}, {2, 0, 1}, {2, 1, 0}} {
+		ops = append(ops, multi("synth-multi3", []string{three[pm[0]], three[pm[1]], three[pm[2]]}, ""))
+		ops = append(ops, multi("synth-multi3", []string{three[pm[0]], three[pm[1]], three[pm[2]]}, "X__two"))
+	}
+	for fi, f := range []string{"x", "_x", "X", "a_b", "__x", "___x", "x_", "_x_", "__", "_"} {
+		pairs := fi < 4 // pairs of kinds for the first four names only
 		base := f
 		if !strings.HasPrefix(base, "_") {
 			base = "_" + base
@@ -1345,6 +1380,9 @@ func mpSynthFamily() []string {
 			for _, c := range cands {
 				ops = append(ops, build(f, [][2]string{{c, k}}))
 			}
+		}
+		if !pairs {
+			continue
 		}
 		for _, k1 := range kinds {
 			for _, k2 := range kinds {
